@@ -11,7 +11,10 @@ QCfg == [ budget |-> 488,
                       [name |-> <<85>>,         type |-> "SSTRING", len |-> 1, scalar |-> FALSE, cia |-> <<2, 1, 4>>] >> ]
 Rq(svc, tag, mode, idx, n, typ, vals) == [svc |-> svc, tag |-> tag, mode |-> mode, idx |-> idx, n |-> n, off |-> 0, typ |-> typ,
                                           vals |-> vals, bytes |-> <<>>, ms |-> <<>>]
-Basis == { Rq("read", 1, "sym", 0, 3, "INT", <<>>), Rq("read", 1, "sym", 1, 1, "INT", <<>>), Rq("read", 2, "sym", 0 - 1, 1, "INT", <<>>),
+RqF(svc, tag, idx, n, off, typ, vals) == [Rq(svc, tag, "sym", idx, n, typ, vals) EXCEPT !.off = off]
+Basis == { \* explicit byte offsets: single fragments (the first two values of A[0-2]; its third; a read from its second element)
+           RqF("writef", 1, 0, 3, 0, "INT", << <<7, 0>>, <<8, 0>> >>), RqF("writef", 1, 0, 3, 4, "INT", << <<9, 0>> >>),
+           RqF("readf", 1, 0, 3, 2, "INT", <<>>), Rq("read", 1, "sym", 0, 3, "INT", <<>>), Rq("read", 1, "sym", 1, 1, "INT", <<>>), Rq("read", 2, "sym", 0 - 1, 1, "INT", <<>>),
            Rq("write", 1, "sym", 1, 2, "INT", << <<5, 0>>, <<6, 0>> >>), Rq("write", 1, "cia", 0, 1, "INT", << <<44, 1>> >>),
            Rq("write", 3, "sym", 0, 2, "DINT", << <<8, 0, 0, 0>>, <<9, 0, 0, 0>> >>),
            Rq("read", 1, "sym", 2, 3, "INT", <<>>),                                   \* beyond the end: 0xFF / 0x2105
